@@ -209,8 +209,136 @@ theorem loop8_rows (g : G8) (hw : g.padW + g.wImg ≤ g.stride) (hpos : 0 < g.w)
         obtain ⟨y', rfl⟩ : ∃ y', y = y' + 1 := ⟨y - 1, by omega⟩
         have hl' : rs.length = y' + 1 := by simp at hl; omega
         have := ih rs y' (rowImg g.stride g.padW g.wImg r ++ B) hvr hl' (fun r' h => hlen r' (by simp [h]))
-        simp only [packed, Nat.add_sub_cancel, List.append_assoc] at this ⊢
+        simp only [packed, Nat.add_sub_cancel] at this ⊢
         rw [this]
         simp [List.append_assoc]
+
+/-! ### the raw path -/
+
+theorem copyRow8_spec (fdata A B : Bytes) (stride ox w : Nat) (hw : ox + w ≤ stride) :
+    ∀ (bs p : Bytes) (k : Nat) (rest : Bytes), fdata.drop k = bs ++ rest → p.length + bs.length ≤ w →
+      copyRow8 fdata bs.length (A ++ rowImg stride ox w p ++ B) (A.length + ox + p.length) k
+        = .ok (A ++ rowImg stride ox w (p ++ bs) ++ B, A.length + ox + (p.length + bs.length)) := by
+  intro bs
+  induction bs with
+  | nil => intro p k rest _ _; simp [copyRow8]
+  | cons v bs ih =>
+    intro p k rest hd hp
+    simp only [List.length_cons] at hp ⊢
+    unfold copyRow8
+    rw [byteAt_of_drop fdata k v (bs ++ rest) (by simpa using hd)]
+    have e : A.length + ox + p.length = A.length + p.length + ox := by omega
+    simp only [e]
+    rw [setAt_rowImg A B stride ox w p v (by omega) hw]
+    have := ih (p ++ [v]) (k + 1) rest (drop_succ_of_drop fdata k v (bs ++ rest) (by simpa using hd)) (by simp; omega)
+    simp only [List.length_append, List.length_singleton] at this
+    have e2 : A.length + p.length + ox + 1 = A.length + ox + (p.length + 1) := by omega
+    simp only [e2, this]
+    simp [Nat.add_assoc, Nat.add_comm 1]
+
+/-- the `while y >= 0` loop: `n` lines still to copy; line `n - 1` of the source goes to the next free file row -/
+theorem rawLoop8_spec (rows : List Bytes) (stride ox w wSize : Nat) (hw : ox + w ≤ stride) (hws : w ≤ wSize)
+    (hl : ∀ r ∈ rows, r.length = wSize) (Z : Bytes) :
+    ∀ (n : Nat) (done : Bytes), n ≤ rows.length →
+      rawLoop8 rows.flatten w wSize ox (stride - w - ox) n (done ++ zeros (n * stride) ++ Z) done.length
+        = .ok (done ++ (((rows.take n).reverse.map fun r => rowImg stride ox w r).flatten ++ Z)) := by
+  intro n
+  induction n with
+  | zero => intro done _; simp [rawLoop8, zeros_zero]
+  | succ y ih =>
+    intro done hn
+    unfold rawLoop8
+    have hy : y < rows.length := by omega
+    have hr : rows[y].length = wSize := hl _ (List.getElem_mem hy)
+    have hz : zeros ((y + 1) * stride) = rowImg stride ox w [] ++ zeros (y * stride) := by
+      rw [rowImg_nil _ _ _ (by omega), ← zeros_add]; congr 1; rw [Nat.add_mul]; omega
+    have hd := drop_flatten_uniform wSize rows y hl hy
+    have hd' : rows.flatten.drop (y * wSize) = rows[y].take w ++ (rows[y].drop w ++ (rows.drop (y + 1)).flatten) := by
+      rw [hd, ← List.append_assoc, List.take_append_drop]
+    have hc := copyRow8_spec rows.flatten done (zeros (y * stride) ++ Z) stride ox w hw (rows[y].take w) [] (y * wSize) _ hd'
+      (by simp [List.length_take]; omega)
+    have htl : (rows[y].take w).length = w := by simp [List.length_take]; omega
+    simp only [htl, List.length_nil, Nat.add_zero, Nat.zero_add, List.nil_append] at hc
+    rw [hz]
+    simp only [List.append_assoc] at hc ⊢
+    rw [hc]
+    simp only
+    have hdi : done.length + ox + w + (stride - w - ox) = (done ++ rowImg stride ox w (rows[y].take w)).length := by
+      simp only [List.length_append, rowImg_length _ _ _ _ hw]; omega
+    rw [hdi]
+    have := ih (done ++ rowImg stride ox w (rows[y].take w)) (by omega)
+    simp only [List.append_assoc] at this
+    rw [this]
+    rw [rowImg_take _ _ _ _ (by omega)]
+    have ht : rows.take (y + 1) = rows.take y ++ [rows[y]] := by
+      rw [List.take_add_one]; simp [List.getElem?_eq_getElem hy]
+    rw [ht]
+    simp only [List.reverse_append, List.reverse_cons, List.reverse_nil, List.nil_append, List.cons_append,
+      List.map_cons, List.flatten_cons, List.append_assoc]
+
+/-! ### the two paths of `Decoder8b.decode` on the scan lines of an image -/
+
+theorem g8_of_le (W ox stride : Nat) (h : ox ≤ W) :
+    g8 W ox stride = { stride := stride, padW := ox, wImg := W - ox, w := (W - ox) + (W - ox) % 2,
+                       bw := if (W - ox) + (W - ox) % 2 + ox > stride then stride + 4 else stride } := by
+  unfold g8
+  have e1 : ((W : Int) - (ox : Int)).toNat = W - ox := by omega
+  have e2 : (((W : Int) - (ox : Int)) + ((W : Int) - (ox : Int)) % 2).toNat = (W - ox) + (W - ox) % 2 := by omega
+  have e3 : ((((W : Int) - (ox : Int)) + ((W : Int) - (ox : Int)) % 2 + (ox : Int) > (stride : Int))) ↔ ((W - ox) + (W - ox) % 2 + ox > stride) := by omega
+  simp only [e1, e2, e3]
+
+/-- the pixel area the compressed path produces: rows bottom-up at pitch `stride`, `oy` empty rows above them
+    and (when the even-padded line does not fit the stride) `4·H` surplus bytes -/
+theorem compressed8_spec (W H ox oy stride : Nat) (hox : ox ≤ W) (hoy : oy < H) (hst : W ≤ stride)
+    (opsRows : List (List Op)) (rows : List Bytes) (hv : validRows opsRows rows = true)
+    (hn : rows.length = H - oy) (hl : ∀ r ∈ rows, r.length = (W - ox) + (W - ox) % 2) (hpos : 0 < W - ox) :
+    compressed8 (packed opsRows.flatten) W H ox oy stride
+      = .ok ((rows.reverse.map fun r => rowImg stride ox (W - ox) r).flatten ++ zeros (oy * stride)
+              ++ zeros (((g8 W ox stride).bw - stride) * H)) := by
+  unfold compressed8
+  have hg := g8_of_le W ox stride hox
+  have hlt : ¬ (H < 1 + oy) := by omega
+  simp only [hlt, if_false]
+  have hz : zeros ((g8 W ox stride).bw * H) = zeros ((H - 1 - oy + 1) * (g8 W ox stride).stride)
+      ++ (zeros (oy * stride) ++ zeros (((g8 W ox stride).bw - stride) * H)) := by
+    rw [← zeros_add, ← zeros_add]; congr 1
+    rw [hg]; simp only
+    have e : H - 1 - oy + 1 = H - oy := by omega
+    rw [e]
+    have hm : (H - oy) * stride + oy * stride = stride * H := by
+      rw [← Nat.add_mul]
+      have : H - oy + oy = H := by omega
+      rw [this]; exact Nat.mul_comm _ _
+    split
+    · have : stride + 4 - stride = 4 := by omega
+      rw [this, Nat.add_mul]; omega
+    · simp only [Nat.sub_self, Nat.zero_mul, Nat.add_zero]; omega
+  rw [hz]
+  have := loop8_rows (g8 W ox stride) (by rw [hg]; simp only; omega) (by rw [hg]; simp only; omega) [] opsRows rows (H - 1 - oy)
+    (zeros (oy * stride) ++ zeros (((g8 W ox stride).bw - stride) * H)) hv (by omega) (by rw [hg]; exact hl)
+  simp only [List.append_nil] at this
+  rw [this, hg]
+  simp only [List.append_assoc]
+
+theorem raw8_spec (W H ox oy stride : Nat) (hox : ox ≤ W) (hoy : oy ≤ H) (hst : W ≤ stride)
+    (rows : List Bytes) (hn : rows.length = H - oy) (hl : ∀ r ∈ rows, r.length = (W - ox) + (W - ox) % 2) :
+    raw8 rows.flatten W H ox oy stride (((W : Int) - ox) + ((W : Int) - ox) % 2)
+      = .ok ((rows.reverse.map fun r => rowImg stride ox (W - ox) r).flatten ++ zeros (oy * stride)) := by
+  unfold raw8
+  have e1 : ((W : Int) - (ox : Int)).toNat = W - ox := by omega
+  have e2 : (((W : Int) - (ox : Int)) + ((W : Int) - (ox : Int)) % 2).toNat = (W - ox) + (W - ox) % 2 := by omega
+  have e3 : ((stride : Int) - ((W : Int) - (ox : Int)) - (ox : Int)).toNat = stride - (W - ox) - ox := by omega
+  simp only [e1, e2, e3]
+  have hz : zeros (stride * H) = [] ++ zeros ((H - oy) * stride) ++ zeros (oy * stride) := by
+    simp only [List.nil_append]
+    rw [← zeros_add, ← Nat.add_mul]; congr 1
+    have : H - oy + oy = H := by omega
+    rw [this]; exact Nat.mul_comm _ _
+  rw [hz]
+  have := rawLoop8_spec rows stride ox (W - ox) ((W - ox) + (W - ox) % 2) (by omega) (by omega) hl (zeros (oy * stride))
+    (H - oy) [] (by omega)
+  simp only [List.length_nil] at this
+  rw [this, ← hn, List.take_length]
+  simp
 
 end Drx.Bitd
